@@ -877,7 +877,10 @@ static fb_member_t *align_order_members(fb_parser_t *P, fb_member_t *members)
             k = next->align;
             break;
         }
-        assert(k > 0);
+        if (k == 0) {
+            /* A struct or enum type that failed analysis (reported earlier) has no alignment. */
+            k = 1;
+        }
         i = 0;
         while (k >>= 1) {
             ++i;
